@@ -472,15 +472,15 @@ proof {  assert(k0 <= 8 && size as int == 8 * k0 + 4); }
             let mut r = self.writer.write_u8(type_id | high);
 proof {  assert(type_id | 0u8 == type_id) by (bit_vector); assert((8 * k0) as u64 == size as u64); }
 
-            // Remaining payload bytes, most significant first.
-            for shift in (0..size / 8).rev() 
+            while size > 0 && r.is_ok() 
         invariant
             self.ok == old(self).ok, self.ok,
             size % 8 == 0, size as int <= 8 * k0, k0 <= 8,
             r.is_ok() ==> self.writer.out() == old(self).writer.out() + seq![head_byte(type_id, value, k0)] + be_bytes(value, k0).subrange(0, k0 - size as int / 8),
         decreases size
     {
-                r = self.writer.write_u8((value >> (shift * 8)) as u8);
+                size = size.saturating_sub(8);
+                r = self.writer.write_u8((value >> size) as u8);
             
 proof {  let j = k0 - (size as int + 8) / 8;
     assert(be_bytes(value, k0).subrange(0, j + 1) == be_bytes(value, k0).subrange(0, j).push(be_bytes(value, k0)[j]));
